@@ -1,4 +1,499 @@
-From Coq Require Import ZArith QArith List String Bool.
-From Cop Require Import Model.Lifecycle Model.LifecycleTab Spec.LifecycleProofs.
+(* C19 — Model life-cycle: fit is a pure function of its inputs; misuse fails loudly.
+
+   Models: Cop.Model.Lifecycle (hand-written executable state machines of the ScipyModel families, the
+   Univariate wrapper, Bivariate, GaussianMultivariate, get_instance; tied to the library by the history
+   correspondence of tools/vf/props/C19.py, evaluated by vm_compute over Cop.Model.LifecycleTab, the
+   oracle-table instance) and the vine structure model Cop.Model.Vine for the definition-before-use part.
+   Deep proofs: Cop.Spec.LifecycleProofs.  Which classes / methods carry the decorators and guards is
+   GENERATED from the AST of the tree under test on every run (CopRun.Gen_c19facts).
+
+   The full-strength statement of the property is FALSE of the current code.  It is kept visible below
+   ([fit_pure_full], [unfitted_raises_full_biv], [def_before_use_full]) next to its refutation with a concrete
+   witness (each witness is replayed on the real library by the check: findings F5, F6, F7, F8, F9b, F22-F27)
+   and next to the strongest partial statement that does hold. *)
+From Coq Require Import ZArith QArith List String Bool Lia.
+From Cop Require Import Model.Lifecycle Model.Vine Model.LifecycleTab Spec.LifecycleProofs.
 From CopRun Require Import Gen_c19facts.
 Import ListNotations.
+Open Scope string_scope.
+Open Scope list_scope.
+
+(* ===================================================================================================== *)
+(* T1  fit is a pure function of (constructor arguments, X)                                               *)
+(* ===================================================================================================== *)
+Section T1.
+  (* scipy / numpy oracles: ANY functions (the theorems hold for every behaviour of scipy) *)
+  Variable o_sfit : family -> data -> list Q -> list Q.
+  Variable o_tg_opt : data -> Q -> Q -> Q * Q.
+  Variable o_tolist : data -> list Q.
+  Variable o_resample : data -> jv -> jv -> nat -> grng -> list Q.
+  Variable o_select : data -> list cand -> option nat.
+  Variable o_choice : data -> nat -> grng -> data.
+  Variable o_corr : nat -> list obs -> list (list Q).
+  Variable o_frank_theta : Q -> result jv.
+
+  Notation fit := (fit_scipy o_sfit o_tg_opt o_tolist o_resample).
+  Notation run_fits := (run_fits_s o_sfit o_tg_opt o_tolist o_resample).
+  Notation fitw := (fit_wrapper o_sfit o_tg_opt o_tolist o_resample o_select o_choice).
+  Notation run_fitsw := (run_fits_w o_sfit o_tg_opt o_tolist o_resample o_select o_choice).
+  Notation fitg := (fit_gm o_sfit o_tg_opt o_tolist o_resample o_select o_choice o_corr).
+  Notation run_fitsg := (run_fits_g o_sfit o_tg_opt o_tolist o_resample o_select o_choice o_corr).
+  Notation fitb := (fit_biv o_frank_theta).
+  Notation run_fitsb := (run_fits_b o_frank_theta).
+
+  (* --- the full statement, per ScipyModel family: after ANY history of fits, fitting X gives a model that no
+         public query (to_dict, cdf, pdf, ppf, logpdf, sample) can tell from a fresh model fitted on X --- *)
+  Definition fit_pure_full (f : family) : Prop :=
+    forall s0 hs X g0 g, new_scipy f [] [] = Ok s0 ->
+      observe_s (st (fit (fst (run_fits s0 hs g0)) X g)) = observe_s (st (fit s0 X g)).
+
+  (* REFUTED for every one of the eight families by the history [fit(constant 3.0); fit(X)] (finding F5):
+     the instance-level constant overrides installed by the first fit are never removed, cdf stays the
+     degenerate law at 3.0 *)
+  Theorem C19_fit_pure_full_refuted : forall f, ~ fit_pure_full f.
+  Proof.
+    intros f H.
+    destruct (fit_pure_scipy_refuted o_sfit o_tg_opt o_tolist o_resample f) as (s0 & hs & X & Hn & Hd).
+    destruct (Hd [] []) as [Hne _]. apply Hne. apply H. exact Hn.
+  Qed.
+  Theorem C19_fit_pure_scipy_refuted : forall f,
+      exists s0 hs X, new_scipy f [] [] = Ok s0 /\
+        forall g0 g,
+          observe_s (st (fit (fst (run_fits s0 hs g0)) X g)) <> observe_s (st (fit s0 X g)) /\
+          sm_cdf (observe_s (st (fit (fst (run_fits s0 hs g0)) X g))) = ObsConst QCdf (Some (JNum 3)).
+  Proof. exact (fit_pure_scipy_refuted o_sfit o_tg_opt o_tolist o_resample). Qed.
+
+  (* --- what does hold: purity for histories without the three triggers --- *)
+  (* benign s0 hs X :=  (X constant \/ no constant dataset in hs)                      [F5 trigger excluded]
+                    /\ (options given by the user (TG: both bounds, KDE: sample_size)  [F6/F7 trigger excluded]
+                        \/ every earlier dataset constant) *)
+  Theorem C19_fit_pure_scipy_partial : forall s0 hs X g0 g,
+      benign s0 hs X ->
+      er (fit (fst (run_fits s0 hs g0)) X g) = None ->
+      eqv (st (fit (fst (run_fits s0 hs g0)) X g)) (st (fit s0 X g)) /\
+      snd (fst (fit (fst (run_fits s0 hs g0)) X g)) = snd (fst (fit s0 X g)) /\
+      er (fit s0 X g) = None.
+  Proof. exact (fit_pure_scipy_partial o_sfit o_tg_opt o_tolist o_resample). Qed.
+  Theorem C19_fit_pure_scipy_partial_observe : forall s0 hs X g0 g,
+      benign s0 hs X ->
+      er (fit (fst (run_fits s0 hs g0)) X g) = None ->
+      observe_s (st (fit (fst (run_fits s0 hs g0)) X g)) = observe_s (st (fit s0 X g)).
+  Proof. exact (fit_pure_scipy_partial_observe o_sfit o_tg_opt o_tolist o_resample). Qed.
+  (* the six plain families (no constructor options): only the constant trigger matters, and fit never fails *)
+  Theorem C19_fit_pure_plain_partial : forall s0 hs X g0 g,
+      plain (s_fam s0) ->
+      (d_const X <> None \/ Forall nonconst hs) ->
+      observe_s (st (fit (fst (run_fits s0 hs g0)) X g)) = observe_s (st (fit s0 X g)).
+  Proof. exact (fit_pure_plain_partial o_sfit o_tg_opt o_tolist o_resample). Qed.
+  Theorem C19_fit_pure_tg_partial : forall s0 hs X g0 g,
+      s_fam s0 = FTrunc ->
+      is_none (s_min s0) = false -> is_none (s_max s0) = false ->
+      (d_const X <> None \/ Forall nonconst hs) ->
+      er (fit (fst (run_fits s0 hs g0)) X g) = None ->
+      observe_s (st (fit (fst (run_fits s0 hs g0)) X g)) = observe_s (st (fit s0 X g)).
+  Proof. exact (fit_pure_tg_partial o_sfit o_tg_opt o_tolist o_resample). Qed.
+  Theorem C19_fit_pure_kde_partial : forall s0 hs X g0 g,
+      s_fam s0 = FKDE ->
+      truthy (s_ss s0) = true ->
+      (d_const X <> None \/ Forall nonconst hs) ->
+      er (fit (fst (run_fits s0 hs g0)) X g) = None ->
+      observe_s (st (fit (fst (run_fits s0 hs g0)) X g)) = observe_s (st (fit s0 X g)).
+  Proof. exact (fit_pure_kde_partial o_sfit o_tg_opt o_tolist o_resample). Qed.
+  Theorem C19_fit_pure_after_constants_partial : forall s0 hs X g0 g,
+      Forall isconst hs -> d_const X <> None ->
+      er (fit (fst (run_fits s0 hs g0)) X g) = None ->
+      observe_s (st (fit (fst (run_fits s0 hs g0)) X g)) = observe_s (st (fit s0 X g)).
+  Proof. exact (fit_pure_after_constants_partial o_sfit o_tg_opt o_tolist o_resample). Qed.
+
+  (* --- Univariate wrapper, Clayton/Frank/Gumbel, GaussianMultivariate: FULL strength for successful fits
+         (the whole result triple -- state, global generator, exception -- is the same as on a fresh object).
+         NB the wrapper's result still depends on the global generator g when selection_sample_size is set (F9b). --- *)
+  Theorem C19_fit_pure_wrapper : forall u0 hs X g0 g,
+      er (fitw (fst (run_fitsw u0 hs g0)) X g) = None ->
+      fitw (fst (run_fitsw u0 hs g0)) X g = fitw u0 X g.
+  Proof. exact (fit_pure_wrapper o_sfit o_tg_opt o_tolist o_resample o_select o_choice). Qed.
+  Theorem C19_fit_pure_biv : forall b0 hs X,
+      b_cls b0 <> Some Independence ->
+      snd (fitb (run_fitsb b0 hs) X) = None ->
+      fitb (run_fitsb b0 hs) X = fitb b0 X.
+  Proof. exact (fit_pure_biv o_frank_theta). Qed.
+  Theorem C19_fit_pure_gm : forall x0 hs T g0 g,
+      er (fitg (fst (run_fitsg x0 hs g0)) T g) = None ->
+      fitg (fst (run_fitsg x0 hs g0)) T g = fitg x0 T g.
+  Proof. exact (fit_pure_gm o_sfit o_tg_opt o_tolist o_resample o_select o_choice o_corr). Qed.
+
+  (* ===================================================================================================== *)
+  (* T3  validation: empty / non-numeric / NaN training data => ValueError, state and generator unchanged  *)
+  (* ===================================================================================================== *)
+  Theorem C19_validation : forall x T g,
+      t_empty T = true \/ t_numeric T = false \/ t_has_nan T = true ->
+      fitg x T g = (x, g, Some ValueErr).
+  Proof. exact (validation o_sfit o_tg_opt o_tolist o_resample o_select o_choice o_corr). Qed.
+
+  (* ===================================================================================================== *)
+  (* T4  get_instance (the parts that quantify over fit histories)                                         *)
+  (* ===================================================================================================== *)
+  Theorem C19_get_instance_ignores_fit_state : forall s hs g kw,
+      get_instance_u (PInstS (fst (run_fits s hs g))) kw = get_instance_u (PInstS s) kw.
+  Proof. exact (get_instance_ignores_fit_state o_sfit o_tg_opt o_tolist o_resample). Qed.
+  Theorem C19_get_instance_ignores_fit_state_wrapper : forall u hs g kw,
+      get_instance_u (PInstU (fst (run_fitsw u hs g))) kw = get_instance_u (PInstU u) kw.
+  Proof. exact (get_instance_ignores_fit_state_wrapper o_sfit o_tg_opt o_tolist o_resample o_select o_choice). Qed.
+  (* classes with @store_args: the clone of a (re)fitted instance IS the object the constructor call built
+     (KDE options, truncation bounds, seed), whatever was fitted in between *)
+  Theorem C19_get_instance_replays_ctor : forall f a k s hs g,
+      has_store_args f = true -> new_scipy f a k = Ok s ->
+      get_instance_u (PInstS (fst (run_fits s hs g))) [] = Ok (OS s).
+  Proof. exact (get_instance_replays_ctor o_sfit o_tg_opt o_tolist o_resample). Qed.
+  Theorem C19_get_instance_replays_ctor_wrapper : forall a k u hs g,
+      new_wrapper a k = Ok u ->
+      get_instance_u (PInstU (fst (run_fitsw u hs g))) [] = Ok (OU u).
+  Proof. exact (get_instance_replays_ctor_wrapper o_sfit o_tg_opt o_tolist o_resample o_select o_choice). Qed.
+  (* classes WITHOUT @store_args: the clone is the default-constructed object: a seed given to the prototype is lost (F27) *)
+  Theorem C19_get_instance_no_store_args : forall f a k s hs g,
+      has_store_args f = false -> new_scipy f a k = Ok s ->
+      get_instance_u (PInstS (fst (run_fits s hs g))) [] = Ok (OS (fresh f)).
+  Proof. exact (get_instance_no_store_args o_sfit o_tg_opt o_tolist o_resample). Qed.
+End T1.
+
+(* ---------- T1 refutations with concrete witnesses (evaluated on the Stub oracles) ---------- *)
+(* F6: TruncatedGaussian() : [fit X; fit 10X] keeps the bounds derived from X *)
+Theorem C19_fit_pure_tg_refuted :
+  exists s0 hs X, new_scipy FTrunc [] [] = Ok s0 /\
+    observe_s (sst (sfit (srun s0 hs) X [])) <> observe_s (sst (sfit s0 X [])) /\
+    s_min (sst (sfit (srun s0 hs) X [])) = qj (d_min Stub.X1 - EPS) /\
+    s_max (sst (sfit (srun s0 hs) X [])) = qj (d_max Stub.X1 + EPS) /\
+    s_min (sst (sfit s0 X [])) = qj (d_min Stub.X10 - EPS).
+Proof. exact fit_pure_tg_refuted. Qed.
+(* F7: GaussianKDE() : [fit X50; fit X6] resamples 50 points from the 6 and consumes the GLOBAL generator *)
+Theorem C19_fit_pure_kde_refuted :
+  exists s0 hs X, new_scipy FKDE [] [] = Ok s0 /\
+    observe_s (sst (sfit (srun s0 hs) X [])) <> observe_s (sst (sfit s0 X [])) /\
+    s_ss (srun s0 hs) = natj 50 /\
+    (exists l, lookup "dataset" (match s_params (sst (sfit (srun s0 hs) X [])) with Some p => p | None => [] end)
+               = Some (JList [JList l]) /\ List.length l = 50%nat) /\
+    (exists l, lookup "dataset" (match s_params (sst (sfit s0 X [])) with Some p => p | None => [] end)
+               = Some (JList l) /\ List.length l = 6%nat) /\
+    snd (fst (sfit (srun s0 hs) X [])) = [mkDraw (JStr "kde.fit.resample") 50].
+Proof. exact fit_pure_kde_refuted. Qed.
+(* F7 (constant data): [fit X50; fit const] serialises 50 copies instead of len(X) *)
+Theorem C19_fit_pure_kde_const_refuted :
+  exists s0 hs X, new_scipy FKDE [] [] = Ok s0 /\ d_const X <> None /\
+    to_dict_scipy (sst (sfit (srun s0 hs) X [])) <> to_dict_scipy (sst (sfit s0 X [])).
+Proof. exact fit_pure_kde_const_refuted. Qed.
+(* F22: a failing fit is not atomic -- GaussianKDE keeps the NEW _params with the OLD _model *)
+Theorem C19_kde_failed_fit_not_atomic :
+  exists s0 X1 X2 s e,
+    new_scipy FKDE [] [("sample_size", natj 1)] = Ok s0 /\
+    sfit (set_ss JNone s0) X1 [] = (s, [], None) /\
+    sfit (set_ss (natj 1) s) X2 [] = (e, [mkDraw (JStr "kde.fit.resample") 1], Some ValueErr) /\
+    s_fitted e = true /\ s_params e <> s_params s /\ s_model e = s_model s.
+Proof. exact kde_failed_fit_not_atomic. Qed.
+(* F9b: Univariate(selection_sample_size=3).fit reads (and advances) the GLOBAL generator: two global states,
+   two different fitted models *)
+Theorem C19_fit_wrapper_reads_global_rng :
+  exists u X g1 g2,
+    new_wrapper [] [("selection_sample_size", UJ (natj 3))] = Ok u /\
+    er (fitw2 u X g1) = None /\ er (fitw2 u X g2) = None /\
+    to_dict_wrapper (fst (fst (fitw2 u X g1))) <> to_dict_wrapper (fst (fst (fitw2 u X g2))) /\
+    snd (fst (fitw2 u X g1)) = mkDraw (JStr "choice") 3 :: g1.
+Proof. exact fit_wrapper_reads_global_rng. Qed.
+(* F22: Univariate: [fit good; fit data on which no candidate can be fitted] leaves fitted = True, _instance = None *)
+Theorem C19_fit_failure_not_atomic_wrapper :
+  exists u u1, new_wrapper [] [] = Ok u /\ fitw3 u Stub.X1 [] = (u1, [], None) /\
+    er (fitw3 u1 Xbad []) = Some AttributeErr /\
+    u_fitted (fst (fst (fitw3 u1 Xbad []))) = true /\ u_instance (fst (fst (fitw3 u1 Xbad []))) = None /\
+    q_u (OU (fst (fst (fitw3 u1 Xbad [])))) QCdf = ObsErr AttributeErr /\
+    to_dict_wrapper (fst (fst (fitw3 u1 Xbad []))) = Err AttributeErr /\
+    q_u (OU (fst (fst (fitw3 u Xbad [])))) QCdf = ObsErr NotFitted.
+Proof. exact fit_failure_not_atomic_wrapper. Qed.
+(* F22: Clayton: [fit good; fit negatively dependent] raises ValueError but keeps the rejected theta: every query now raises *)
+Theorem C19_fit_failure_not_atomic_biv :
+  exists b X, fitb clayton0 Stub.P1 = (b, None) /\
+    snd (fitb b X) = Some ValueErr /\
+    b_theta (fst (fitb b X)) = JNum (-2 # 3) /\
+    q_b b BCdf = ObsBiv BCdf Clayton (JNum 2) /\
+    q_b (fst (fitb b X)) BCdf = ObsErr ValueErr.
+Proof. exact fit_failure_not_atomic_biv. Qed.
+(* F22: Clayton: [fit good; fit constant column] raises but stores tau = nan and keeps answering with the OLD theta *)
+Theorem C19_fit_pure_biv_full_refuted :
+  exists b0 hs X,
+    observe_b (fst (fitb (run_fits_b Stub.frank_theta b0 hs) X)) <> observe_b (fst (fitb b0 X)) /\
+    b_tau (fst (fitb (run_fits_b Stub.frank_theta b0 hs) X)) = JNaN /\
+    q_b (fst (fitb (run_fits_b Stub.frank_theta b0 hs) X)) BCdf = ObsBiv BCdf Clayton (JNum 2) /\
+    q_b (fst (fitb b0 X)) BCdf = ObsErr NotFitted.
+Proof. exact fit_pure_biv_full_refuted. Qed.
+
+(* ===================================================================================================== *)
+(* T2  querying / sampling / serialising an unfitted model raises NotFittedError                          *)
+(* ===================================================================================================== *)
+Theorem C19_unfitted_raises_scipy : forall f a k s q n g,
+    new_scipy f a k = Ok s ->
+    query_scipy s q n g = (s, g, ObsErr NotFitted) /\ to_dict_scipy s = Err NotFitted.
+Proof. exact unfitted_raises_scipy. Qed.
+Theorem C19_unfitted_raises_scipy_gen : forall s q n g,
+    s_fitted s = false -> s_ov s = no_ov ->
+    query_scipy s q n g = (s, g, ObsErr NotFitted) /\ to_dict_scipy s = Err NotFitted.
+Proof. exact unfitted_raises_scipy_gen. Qed.
+Theorem C19_unfitted_raises_wrapper : forall a k u q n g,
+    new_wrapper a k = Ok u ->
+    query_wrapper u q n g = (u, g, ObsErr NotFitted) /\ to_dict_wrapper u = Err NotFitted.
+Proof. exact unfitted_raises_wrapper. Qed.
+(* ... also for Univariate.sample as it is since the F9 fix (under @random_state; seeded or not) *)
+Theorem C19_unfitted_raises_wrapper_rs : forall u k n g,
+    u_fitted u = false ->
+    snd (query_wrapper_rs u k n g) = ObsErr NotFitted /\ snd (fst (query_wrapper_rs u k n g)) = g.
+Proof. exact query_wrapper_rs_unfitted. Qed.
+Theorem C19_unfitted_raises_gm : forall a k x q n g,
+    new_gm a k = Ok x ->
+    query_gm x q n g = (x, g, ObsErr NotFitted) /\ to_dict_gm x = Err NotFitted.
+Proof. exact unfitted_raises_gm. Qed.
+(* Clayton / Frank / Gumbel: the guard is `not self.theta` (theta None or 0); every query BUT sample *)
+Theorem C19_unfitted_raises_biv : forall b t k n g,
+    b_cls b = Some t -> t <> Independence -> theta_unset b = true -> k <> BSample ->
+    query_biv b k n g = (b, g, ObsErr NotFitted).
+Proof. exact unfitted_raises_biv. Qed.
+(* the full statement for the bivariate classes ... *)
+Definition unfitted_raises_full_biv : Prop :=
+  forall t rs k n g, t <> Independence ->
+    snd (query_biv (mkB (Some t) JNone JNone rs true) k n g) = ObsErr NotFitted /\
+    to_dict_biv (mkB (Some t) JNone JNone rs true) = Err NotFitted.
+(* ... is REFUTED twice: sample() compares tau = None with 1 (TypeError, F23), to_dict() never checks (F24) *)
+Theorem C19_unfitted_biv_sample_refuted : forall t rs n g,
+    query_biv (mkB (Some t) JNone JNone rs true) BSample n g
+    = (mkB (Some t) JNone JNone rs true, g, ObsErr TypeErr).
+Proof. exact unfitted_biv_sample_refuted. Qed.
+Theorem C19_unfitted_biv_to_dict_refuted : forall t rs i,
+    to_dict_biv (mkB (Some t) JNone JNone rs i)
+    = Ok (JDict [("copula_type", JStr (ctype_NAME t)); ("theta", JNone); ("tau", JNone)]).
+Proof. exact unfitted_biv_to_dict_refuted. Qed.
+Theorem C19_unfitted_raises_full_biv_refuted : ~ unfitted_raises_full_biv.
+Proof.
+  intros H. destruct (H Clayton None BSample 1%nat [] ltac:(discriminate)) as [H1 _].
+  rewrite unfitted_biv_sample_refuted in H1. discriminate H1.
+Qed.
+(* with theta = 0 (Clayton fitted on tau = 0 data, F14a) sample() does raise NotFittedError -- after consuming the generator *)
+Theorem C19_unfitted_biv_sample_theta0 : forall t n g,
+    t <> Independence ->
+    query_biv (mkB (Some t) (JNum 0) (JNum 0) None true) BSample n g
+    = (mkB (Some t) (JNum 0) (JNum 0) None true, mkDraw (JStr "biv.sample") n :: g, ObsErr NotFitted).
+Proof. exact unfitted_biv_sample_theta0. Qed.
+
+(* ===================================================================================================== *)
+(* T4  get_instance: a NEW unfitted object of the prototype's class                                        *)
+(* ===================================================================================================== *)
+Theorem C19_get_instance_fresh : forall p kw o,
+    get_instance_u p kw = Ok o ->
+    pristine_u o /\ fitted_u o = false /\ proto_class p = Ok (class_u o).
+Proof. exact get_instance_fresh. Qed.
+Theorem C19_get_instance_kwargs_override : forall s k kw,
+    get_instance_u (PInstS s) (k :: kw) = new_u (KFam (s_fam s)) [] (k :: kw).
+Proof. exact get_instance_kwargs_override. Qed.
+(* "configured like the prototype" is REFUTED for the six classes without @store_args (F27) *)
+Theorem C19_get_instance_drops_seed :
+  exists s s', new_scipy FGaussian [] [("random_state", natj 42)] = Ok s /\
+    get_instance_u (PInstS s) [] = Ok (OS s') /\ s_rs s = Some (42%Z, []) /\ s_rs s' = None.
+Proof. exact get_instance_drops_seed. Qed.
+Theorem C19_get_instance_tg_example :
+  exists s s1 s2,
+    new_scipy FTrunc [JNum 0] [("random_state", natj 7)] = Ok s /\
+    sst (sfit s Stub.X1 []) = s1 /\ s_max s1 = qj (7 + EPS) /\
+    get_instance_u (PInstS s1) [] = Ok (OS s2) /\ s2 = s /\ s_max s2 = JNone /\
+    (exists s3, get_instance_u (PInstS s1) [("random_state", UJ JNone)] = Ok (OS s3) /\ s_min s3 = JNone).
+Proof. exact get_instance_tg_example. Qed.
+Theorem C19_get_instance_names :
+  (exists s, get_instance_u (PName "copulas.univariate.gaussian.GaussianUnivariate") [] = Ok (OS s) /\ s_fam s = FGaussian) /\
+  (exists s, get_instance_u (PName "copulas.univariate.GaussianKDE") [("sample_size", UJ (natj 5))] = Ok (OS s) /\ s_ss s = natj 5) /\
+  (exists u, get_instance_u (PName "copulas.univariate.Univariate") [] = Ok (OU u)) /\
+  get_instance_u (PName "Nope") [] = Err ValueErr /\
+  get_instance_u (PName "copulas.nomodule.Nope") [] = Err ImportErr /\
+  get_instance_u (PName "copulas.univariate.gaussian.Nope") [] = Err AttributeErr /\
+  get_instance_u (PName "copulas.univariate.gaussian.GaussianUnivariate") [("foo", UJ (JNum 3))] = Err TypeErr /\
+  get_instance_u (PFamCls FGaussian) [("random_state", UJ (JNum (3 # 2)))] = Err TypeErr.
+Proof. exact get_instance_names. Qed.
+(* construction through the Bivariate entry point: 'independence' evaluates to None (F26);
+   Frank.from_dict / Frank.load in a fresh interpreter raises AttributeError (F25) *)
+Theorem C19_dispatch_independence_refuted : forall th ta,
+    new_biv bworld0 None [("copula_type", JStr "independence")] = (mkBW true [] false, Ok None) /\
+    from_dict_biv bworld0 None (biv_dict Independence th ta) = (mkBW true [] false, Err AttributeErr).
+Proof. exact dispatch_independence_refuted. Qed.
+Theorem C19_subclass_from_dict_refuted : forall th ta,
+    from_dict_biv bworld0 (Some Frank) (biv_dict Frank th ta) = (mkBW false [Frank] false, Err AttributeErr).
+Proof. exact subclass_from_dict_refuted. Qed.
+Theorem C19_subclass_from_dict_history_dependent : forall th ta,
+    from_dict_biv (mkBW true [Frank] false) (Some Frank) (biv_dict Frank th ta)
+    = (mkBW true [Frank] false, Err AttributeErr) /\
+    from_dict_biv (mkBW true [Frank] false) (Some Clayton) (biv_dict Frank th ta)
+    = (mkBW true [Frank] false, Ok (mkB (Some Frank) th ta None false)).
+Proof. exact subclass_from_dict_history_dependent. Qed.
+
+(* ===================================================================================================== *)
+(* T5  no result depends on uninitialised memory (vines; structure model Cop.Model.Vine)                   *)
+(* ===================================================================================================== *)
+(* Tree.get_tau_matrix allocates np.empty and writes the cells (i, j), j in edges[i].neighbors
+   (is_adjacent: a shared CONDITIONED variable); the next tree reads [regular_reads] / [direct_reads] /
+   [center_reads].  Full statement: every cell read was written. *)
+Definition def_before_use_full : Prop :=
+  forall level prev visited,
+    unwritten_reads prev (regular_reads level prev visited) = [] /\ unwritten_reads prev (direct_reads prev) = [].
+(* second trees are fine: on edges of a first tree _check_constraint(level 2) IS is_adjacent *)
+Theorem C19_level2_constraint_is_adjacent : forall a b : edge,
+    e_D a = [] -> e_D b = [] -> (e_L a <? e_R a)%nat = true -> (e_L b <? e_R b)%nat = true ->
+    (e_L a =? e_L b)%nat && (e_R a =? e_R b)%nat = false ->
+    forall bound, (e_R a <? bound)%nat = true -> (e_R b <? bound)%nat = true -> (bound <=? 6)%nat = true ->
+    check_constraint 2 a b = is_adjacent a b.
+Proof. exact level2_constraint_is_adjacent. Qed.
+(* REFUTED from the third tree on (finding F8): D-vine 0-1-2-3, second tree (0,2|1), (1,3|2): the pair passes
+   _check_constraint(level 3) but shares no conditioned variable: cell (0,1) is read, nothing was written *)
+Theorem C19_def_before_use_refuted :
+  get_constraints dvine_t2 = [[]; []] /\
+  check_constraint 3 (nth 0 dvine_t2 (mkEdge 0 0 0 [] None)) (nth 1 dvine_t2 (mkEdge 0 0 0 [] None)) = true /\
+  regular_reads 3 dvine_t2 [0%nat] = [(0%nat, 1%nat)] /\
+  unwritten_reads dvine_t2 (regular_reads 3 dvine_t2 [0%nat]) = [(0%nat, 1%nat)] /\
+  unwritten_reads dvine_t2 (direct_reads dvine_t2) = [(0%nat, 1%nat)].
+Proof. exact def_before_use_refuted. Qed.
+Theorem C19_def_before_use_full_refuted : ~ def_before_use_full.
+Proof.
+  intros H. destruct (H 3%nat dvine_t2 [0%nat]) as [H1 _].
+  destruct def_before_use_refuted as (_ & _ & _ & H2 & _). rewrite H2 in H1. discriminate H1.
+Qed.
+(* with five variables two unwritten cells are COMPARED: uninitialised memory chooses the structure *)
+Theorem C19_def_before_use_structure_refuted :
+  regular_reads 3 rvine5_t2 [0%nat] = [(0%nat, 1%nat); (0%nat, 2%nat)] /\
+  unwritten_reads rvine5_t2 (regular_reads 3 rvine5_t2 [0%nat]) = [(0%nat, 1%nat); (0%nat, 2%nat)].
+Proof. exact def_before_use_structure_refuted. Qed.
+
+(* ===================================================================================================== *)
+(* Facts of the CURRENT source (generated from the AST on every run)                                       *)
+(* ===================================================================================================== *)
+(* @store_args: exactly these classes; it is what Lifecycle.has_store_args / u_stored / g_stored assume *)
+Theorem C19_store_args_classes :
+  store_args_classes = ["GaussianKDE"; "GaussianMultivariate"; "TruncatedGaussian"; "Univariate"; "VineCopula"].
+Proof. vm_compute. reflexivity. Qed.
+Theorem C19_model_store_args_agrees : forall f,
+    has_store_args f = existsb (String.eqb (fam_name f)) store_args_classes.
+Proof. intros f. destruct f; vm_compute; reflexivity. Qed.
+(* @check_valid_values wraps (as the outermost decorator) the fit of both public multivariate models *)
+Theorem C19_validated_fits : validated_fits = [("GaussianMultivariate", true); ("VineCopula", true)].
+Proof. vm_compute. reflexivity. Qed.
+(* the public query methods whose first statement is self.check_fit() *)
+Theorem C19_check_fit_first :
+  check_fit_first =
+  [("Bivariate", "percent_point");
+   ("Clayton", "cumulative_distribution"); ("Clayton", "partial_derivative"); ("Clayton", "percent_point"); ("Clayton", "probability_density");
+   ("Frank", "cumulative_distribution"); ("Frank", "partial_derivative"); ("Frank", "percent_point"); ("Frank", "probability_density");
+   ("GaussianKDE", "cumulative_distribution"); ("GaussianKDE", "percent_point"); ("GaussianKDE", "probability_density"); ("GaussianKDE", "sample");
+   ("GaussianMultivariate", "cumulative_distribution"); ("GaussianMultivariate", "probability_density"); ("GaussianMultivariate", "sample");
+   ("GaussianMultivariate", "to_dict");
+   ("Gumbel", "cumulative_distribution"); ("Gumbel", "partial_derivative"); ("Gumbel", "percent_point"); ("Gumbel", "probability_density");
+   ("Independence", "percent_point");
+   ("ScipyModel", "cumulative_distribution"); ("ScipyModel", "log_probability_density"); ("ScipyModel", "percent_point");
+   ("ScipyModel", "probability_density"); ("ScipyModel", "sample");
+   ("Univariate", "cumulative_distribution"); ("Univariate", "log_probability_density"); ("Univariate", "percent_point");
+   ("Univariate", "probability_density"); ("Univariate", "sample"); ("Univariate", "to_dict")].
+Proof. vm_compute. reflexivity. Qed.
+(* ... and those that do not: the log-densities delegate to a guarded method; Bivariate.sample / to_dict are the
+   refuted cases above (F23, F24); VineCopula.sample / to_dict (F28), Tree/Edge.to_dict are helpers *)
+Theorem C19_no_check_fit_first :
+  no_check_fit_first =
+  [("Bivariate", "log_probability_density"); ("Bivariate", "partial_derivative"); ("Bivariate", "sample"); ("Bivariate", "to_dict");
+   ("Edge", "to_dict");
+   ("Independence", "cumulative_distribution"); ("Independence", "partial_derivative"); ("Independence", "probability_density");
+   ("Multivariate", "log_probability_density"); ("Tree", "to_dict"); ("VineCopula", "sample"); ("VineCopula", "to_dict")].
+Proof. vm_compute. reflexivity. Qed.
+(* the guards themselves *)
+Theorem C19_guard_shapes :
+  guard_shapes =
+  [("check_fit:Bivariate", "if not self.theta: raise NotFittedError('This model is not fitted.') ;; self.check_theta()");
+   ("check_fit:Multivariate", "if not self.fitted: raise NotFittedError('This model is not fitted.')");
+   ("check_fit:Univariate", "if not self.fitted: raise NotFittedError('This model is not fitted.')");
+   ("check_valid_values", "if isinstance(X, pd.DataFrame): W = X.to_numpy() else: W = X ;; if not len(W): raise ValueError('Your dataset is empty.') ;; if not (np.issubdtype(W.dtype, np.floating) or np.issubdtype(W.dtype, np.integer)): raise ValueError('There are non-numerical values in your data.') ;; if np.isnan(W).any().any(): raise ValueError('There are nan values in your data.') ;; return function(self, X, *args, **kwargs)");
+   ("get_instance", "instance = None ;; if isinstance(obj, str): package, name = obj.rsplit('.', 1) instance = getattr(importlib.import_module(package), name)(**kwargs) elif isinstance(obj, type): instance = obj(**kwargs) elif kwargs: instance = obj.__class__(**kwargs) else: args = getattr(obj, '__args__', ()) kwargs = getattr(obj, '__kwargs__', {}) instance = obj.__class__(*args, **kwargs) ;; return instance");
+   ("store_args", "args_copy = deepcopy(args) ;; kwargs_copy = deepcopy(kwargs) ;; __init__(self, *args, **kwargs) ;; self.__args__ = args_copy ;; self.__kwargs__ = kwargs_copy")].
+Proof. vm_compute. reflexivity. Qed.
+(* what the fit paths assign on self: nothing else is state a fit can leave behind.  NB no fit path assigns
+   _constant_value or removes the four instance-level overrides on the non-constant branch (F5), TruncatedGaussian._fit
+   assigns min/max (F6), GaussianKDE._get_model assigns _sample_size (F7). *)
+Theorem C19_fit_writes :
+  fit_writes =
+  [("BetaUnivariate", "_fit", ["_params"]); ("BetaUnivariate", "_fit_constant", ["_params"]);
+   ("Bivariate", "_compute_theta", ["theta"]); ("Bivariate", "fit", ["tau"]);
+   ("GammaUnivariate", "_fit", ["_params"]); ("GammaUnivariate", "_fit_constant", ["_params"]);
+   ("GaussianKDE", "_fit", ["_model"; "_params"]); ("GaussianKDE", "_fit_constant", ["_params"]);
+   ("GaussianKDE", "_get_model", ["_sample_size"]); ("GaussianKDE", "_set_params", ["_model"; "_params"]);
+   ("GaussianMultivariate", "fit", ["columns"; "correlation"; "fitted"; "univariates"]);
+   ("GaussianUnivariate", "_fit", ["_params"]); ("GaussianUnivariate", "_fit_constant", ["_params"]);
+   ("Independence", "fit", []);
+   ("LogLaplace", "_fit", ["_params"]); ("LogLaplace", "_fit_constant", ["_params"]);
+   ("Multivariate", "fit", []);
+   ("ScipyModel", "_fit", []); ("ScipyModel", "_set_params", ["_params"]); ("ScipyModel", "fit", ["fitted"]);
+   ("StudentTUnivariate", "_fit", ["_params"]); ("StudentTUnivariate", "_fit_constant", ["_params"]);
+   ("Tree", "fit", ["edges"; "fitted"; "level"; "n_nodes"; "previous_tree"; "tau_matrix"; "u_matrix"]);
+   ("TruncatedGaussian", "_fit", ["_params"; "max"; "min"]); ("TruncatedGaussian", "_fit_constant", ["_params"]);
+   ("UniformUnivariate", "_fit", ["_params"]); ("UniformUnivariate", "_fit_constant", ["_params"]);
+   ("Univariate", "_check_constant_value", []);
+   ("Univariate", "_replace_constant_methods", ["cumulative_distribution"; "percent_point"; "probability_density"; "sample"]);
+   ("Univariate", "_set_constant_value", ["_constant_value"]);
+   ("Univariate", "_set_params", []);
+   ("Univariate", "fit", ["_instance"; "fitted"]);
+   ("VineCopula", "fit", ["columns"; "depth"; "fitted"; "n_sample"; "n_var"; "ppfs"; "tau_mat"; "trees"; "truncated"; "u_matrix"; "unis"])].
+Proof. vm_compute. reflexivity. Qed.
+
+(* ===================================================================================================== *)
+(* Non-vacuity                                                                                             *)
+(* ===================================================================================================== *)
+Example C19_benign_nonvacuous :
+  benign (fresh FGaussian) [Stub.X1; Stub.X10] Stub.X50 /\
+  benign (fresh FGaussian) [Stub.X1; Stub.Xc] Stub.Xc /\
+  er (sfit (srun (fresh FGaussian) [Stub.X1; Stub.X10]) Stub.X50 []) = None.
+Proof. exact benign_nonvacuous_plain. Qed.
+Example C19_benign_nonvacuous_tg :
+  exists s0, new_scipy FTrunc [JNum 0; JNum 100] [] = Ok s0 /\
+    benign s0 [Stub.X1; Stub.X10] Stub.X50 /\
+    er (sfit (srun s0 [Stub.X1; Stub.X10]) Stub.X50 []) = None.
+Proof. exact benign_nonvacuous_tg. Qed.
+Example C19_benign_nonvacuous_kde :
+  exists s0, new_scipy FKDE [natj 4] [] = Ok s0 /\
+    benign s0 [Stub.X1; Stub.X10] Stub.X50 /\
+    er (sfit (srun s0 [Stub.X1; Stub.X10]) Stub.X50 []) = None.
+Proof. exact benign_nonvacuous_kde. Qed.
+Example C19_validation_nonvacuous :
+  exists x, new_gm [] [] = Ok x /\
+    Stub.fit_gm x Stub.Tempty [] = (x, [], Some ValueErr) /\
+    exists x1, Stub.fit_gm x Stub.T1 [] = (x1, [], None) /\
+               Stub.fit_gm x1 Stub.Tempty [] = (x1, [], Some ValueErr) /\
+               Stub.fit_gm x1 (mkT 3 false false false []) [] = (x1, [], Some ValueErr) /\
+               Stub.fit_gm x1 (mkT 4 false true true []) [] = (x1, [], Some ValueErr).
+Proof. exact validation_nonvacuous. Qed.
+(* the machine really runs a history: unfitted query, constant fit, degenerate answer, refit, STILL degenerate (F5) *)
+Example C19_history_example :
+  Stub.run_history (KFam FGaussian)
+    [Query (QU QCdf) 1; Fit (DUni Stub.Xc); Query (QU QCdf) 1; Fit (DUni Stub.X1); Query (QU QCdf) 1]
+  = [ObsErr NotFitted; ObsNone; ObsConst QCdf (Some (JNum 3)); ObsNone; ObsConst QCdf (Some (JNum 3))].
+Proof. vm_compute. reflexivity. Qed.
+
+Print Assumptions C19_fit_pure_full_refuted.
+Print Assumptions C19_fit_pure_scipy_partial.
+Print Assumptions C19_fit_pure_plain_partial.
+Print Assumptions C19_fit_pure_tg_partial.
+Print Assumptions C19_fit_pure_kde_partial.
+Print Assumptions C19_fit_pure_wrapper.
+Print Assumptions C19_fit_pure_biv.
+Print Assumptions C19_fit_pure_gm.
+Print Assumptions C19_fit_pure_tg_refuted.
+Print Assumptions C19_fit_pure_kde_refuted.
+Print Assumptions C19_fit_failure_not_atomic_biv.
+Print Assumptions C19_fit_failure_not_atomic_wrapper.
+Print Assumptions C19_validation.
+Print Assumptions C19_unfitted_raises_scipy.
+Print Assumptions C19_unfitted_raises_wrapper.
+Print Assumptions C19_unfitted_raises_gm.
+Print Assumptions C19_unfitted_raises_biv.
+Print Assumptions C19_unfitted_raises_full_biv_refuted.
+Print Assumptions C19_get_instance_fresh.
+Print Assumptions C19_get_instance_replays_ctor.
+Print Assumptions C19_get_instance_no_store_args.
+Print Assumptions C19_def_before_use_full_refuted.
+Print Assumptions C19_level2_constraint_is_adjacent.
+Print Assumptions C19_check_fit_first.
+Print Assumptions C19_fit_writes.
